@@ -232,7 +232,7 @@ def stream_template(body, local, tpls, steps=12):
     return None
 
 
-def expanded(body, tpl, tpls, depth=3):
+def expanded(body, tpl, tpls, depth=3, rename=None):
     """tokens of `tpl` with every interpolated token stream that is itself a (single) template of the same function
     spliced in: `let operand = quote!(f(#x)); quote!(a & #operand)` reads `a & f(#x)`"""
     k = [0]
@@ -246,11 +246,12 @@ def expanded(body, tpl, tpls, depth=3):
                 nm, loc, ty = tpl.interps[k[0]]
                 if tokens[i + 1] == nm:
                     k[0] += 1
-                    sub = stream_template(body, loc, tpls) if loc is not None and "TokenStream" in (ty or "") else None
+                    given = rename(nm, loc, ty) if rename else None      # a value the caller knows by name stays one token
+                    sub = stream_template(body, loc, tpls) if loc is not None and "TokenStream" in (ty or "") and not given else None
                     if sub is not None and sub is not tpl and d > 0:
-                        out += expanded(body, sub, tpls, d - 1)
+                        out += expanded(body, sub, tpls, d - 1, rename)
                     else:
-                        out += ["#", nm]
+                        out += ["#", given or nm]
                     i += 2
                     continue
             if isinstance(t, dict):
